@@ -1,6 +1,7 @@
 import Proofs.C09Murmur
 import Proofs.C09Token
 import Proofs.C09Parse
+import Proofs.C09Routing
 /-!
 # C09 — partition tokens equal the ones Cassandra computes (property theorems)
 
@@ -63,7 +64,188 @@ theorem C09_parse_order (i j : Int)
     (Token.parseInt64 (Token.printInt i) < Token.parseInt64 (Token.printInt j)) ↔ i < j :=
   Token.parse_order i j hi hj
 
+/-- the token string of every int64 parses to that number (ops parsem, lessm on valid strings) -/
+theorem C09_parse_roundtrip (i : Int) (hlo : Token.int64Min ≤ i) (hhi : i ≤ Token.int64Max) :
+    Token.parseInt64 (Token.printInt i) = i := Token.parseInt64_printInt i hlo hhi
+
 theorem C09_parse_nat (n : Nat) : Token.parseNat (Token.natDigits n) = some n := Token.parseNat_natDigits n
+
+
+/-! ## routing key from the metadata of the prepared statement (session.go routingKeyInfo + createRoutingKey) -/
+
+section RoutingFromMetadata
+open Routing
+variable {τ ν : Type}
+
+/-- **Routing key from the prepared metadata (protocol ≥ 4 branch).** For EVERY statement shape — any number of
+    bind markers, the partition-key markers `m.pkeys` anywhere among them and in any order (first, last, interleaved,
+    permuted), any column types — whenever the value bound to each key marker encodes (with the type of THAT marker's
+    column) to a byte string, `GetRoutingKey` is the raw value (one key column) or the CompositeType framing (several)
+    of exactly those encodings in partition-key order. `enc` is gocql.Marshal (C02/C12). -/
+theorem C09_routing_from_metadata (enc : τ → ν → Enc) (m : Meta τ) (schema : Option (List String))
+    (vals : List ν) (cs : List Bytes)
+    (hpk : m.pkeys ≠ []) (h : Spec.components enc m.cols vals m.pkeys = some cs) :
+    getRoutingKey enc m schema vals = .key (some (Token.routingKey cs)) := by
+  obtain ⟨ts, hts, hloop⟩ := compositeLoop_spec enc m.cols vals m.pkeys cs h
+  cases hp : m.pkeys with
+  | nil => exact absurd hp hpk
+  | cons i is =>
+    rw [hp] at h hts hloop
+    -- the statement has bind markers
+    have hcols : m.cols.isEmpty = false := by
+      unfold Spec.components at h
+      split at h
+      · rename_i c _ hc _
+        obtain ⟨col, _, hcol, _, _⟩ := component_some hc
+        cases hm : m.cols with
+        | nil => simp [hm] at hcol
+        | cons _ _ => rfl
+      · simp at h
+    simp only [getRoutingKey, routingKeyInfo, hcols, hp, hts, List.isEmpty_cons, Bool.not_false,
+      Bool.false_eq_true, if_false, if_true]
+    cases is with
+    | nil =>
+      unfold Spec.components at h
+      split at h
+      · rename_i c cs' hc hcs
+        simp [Spec.components] at hcs h
+        subst hcs; subst h
+        obtain ⟨col, hcol, he⟩ := encAt_of_component hc
+        simp [typesAt, hcol] at hts
+        subst hts
+        simp [createRoutingKey, he, Token.routingKey]
+      · simp at h
+    | cons j js =>
+      have hl : ∃ c1 c2 cs', cs = c1 :: c2 :: cs' := by
+        unfold Spec.components at h
+        split at h
+        · rename_i c cs' hc hcs
+          unfold Spec.components at hcs
+          split at hcs
+          · simp at hcs h; subst hcs; subst h; exact ⟨_, _, _, rfl⟩
+          · simp at hcs
+        · simp at h
+      obtain ⟨c1, c2, cs', hcs⟩ := hl
+      simp only [createRoutingKey]
+      rw [hloop []]
+      subst hcs
+      simp [Token.routingKey]
+
+/-- **The same when the key columns come from the schema metadata** (protocol ≤ 3, or no pk indexes in the PREPARE
+    answer): each key column is the FIRST bind marker whose column has that name. -/
+theorem C09_routing_from_schema (enc : τ → ν → Enc) (m : Meta τ) (names : List String)
+    (vals : List ν) (cs : List Bytes)
+    (hpk : m.pkeys = []) (hne : m.cols ≠ [])
+    (h : Spec.componentsByName enc m.cols vals names = some cs) :
+    getRoutingKey enc m (some names) vals = .key (some (Token.routingKey cs)) := by
+  obtain ⟨is, ts, hb, hlen, hloop, hsingle⟩ := compositeLoop_byName enc m.cols vals names cs h
+  have hclen := componentsByName_length enc m.cols vals names cs h
+  have hcols : m.cols.isEmpty = false := by
+    cases hm : m.cols with
+    | nil => exact absurd hm hne
+    | cons _ _ => rfl
+  simp only [getRoutingKey, routingKeyInfo, hcols, hpk, hb, List.isEmpty_nil, Bool.not_true,
+    Bool.false_eq_true, if_false]
+  match is, cs, hlen, hclen, hloop, hsingle with
+  | [], [], _, _, hloop, _ =>
+    simp only [createRoutingKey]
+    rw [hloop []]; simp [Token.routingKey]
+  | [i], [c], _, _, _, hsingle =>
+    obtain ⟨t, hts, he⟩ := hsingle i c rfl rfl
+    subst hts
+    simp [createRoutingKey, he, Token.routingKey]
+  | i :: j :: is', c1 :: c2 :: cs', _, _, hloop, _ =>
+    simp only [createRoutingKey]
+    rw [hloop []]; simp [Token.routingKey]
+  | [], _ :: _, h1, h2, _, _ => simp at h1 h2; omega
+  | [_], [], h1, h2, _, _ => simp at h1 h2; omega
+  | [_], _ :: _ :: _, h1, h2, _, _ => simp at h1 h2; omega
+  | _ :: _ :: _, [], h1, h2, _, _ => simp at h1 h2; omega
+  | _ :: _ :: _, [_], h1, h2, _, _ => simp at h1 h2; omega
+
+
+/-- a partition key column that no marker binds: no routing key (and no error) -/
+theorem C09_routing_schema_missing (enc : τ → ν → Enc) (m : Meta τ) (names : List String) (vals : List ν)
+    (name : String) (hpk : m.pkeys = []) (hmem : name ∈ names) (hmiss : ∀ c ∈ m.cols, c.name ≠ name) :
+    getRoutingKey enc m (some names) vals = .nokey := by
+  have hb := byName_none_of_missing m.cols names name hmem hmiss
+  simp only [getRoutingKey, routingKeyInfo, hpk, hb, List.isEmpty_nil, Bool.not_true, Bool.false_eq_true, if_false,
+    ite_self]
+
+/-- The position of the key markers in the statement is irrelevant: two statements (any marker order / count)
+    whose key components are the same values with the same column types have the same routing key. -/
+theorem C09_routing_marker_order (enc : τ → ν → Enc) (m₁ m₂ : Meta τ) (s₁ s₂ : Option (List String))
+    (v₁ v₂ : List ν) (cs : List Bytes) (h₁ : m₁.pkeys ≠ []) (h₂ : m₂.pkeys ≠ [])
+    (c₁ : Spec.components enc m₁.cols v₁ m₁.pkeys = some cs)
+    (c₂ : Spec.components enc m₂.cols v₂ m₂.pkeys = some cs) :
+    getRoutingKey enc m₁ s₁ v₁ = getRoutingKey enc m₂ s₂ v₂ := by
+  rw [C09_routing_from_metadata enc m₁ s₁ v₁ cs h₁ c₁, C09_routing_from_metadata enc m₂ s₂ v₂ cs h₂ c₂]
+
+end RoutingFromMetadata
+
+/-- **The partition key order used by the schema branch**: metadata.go builds `TableMetadata.PartitionKey` from the rows
+    of the schema's columns table — whatever order they arrive in (the server sorts them by column name) — so that the
+    key column with position `p` is the `p`-th component, given distinct positions. -/
+theorem C09_schema_partition_key (pk : List (String × Nat)) (hnd : (pk.map (·.2)).Nodup) :
+    (Routing.schemaPartitionKey pk).length = Routing.pkCount pk ∧
+    ∀ n p, (n, p) ∈ pk → (Routing.schemaPartitionKey pk)[p]? = some (some n) := by
+  refine ⟨by simp [Routing.schemaPartitionKey, Routing.place_length], ?_⟩
+  intro n p h
+  exact Routing.place_get pk _ hnd (by intro x hx; simpa using Routing.pkCount_gt pk x hx) (n, p) h
+
+example : Routing.schemaPartitionKey [("b", 1), ("z", 2), ("a", 0)] = [some "a", some "b", some "z"] := by decide
+
+/-- non-vacuity / test vector (toy encoder: a value is its own encoding; the column type is a length to pad to):
+    `UPDATE t SET v = ? WHERE id = ?` with v "bigint" (8), id "int" (4): the key is the id value as a 4-byte int -/
+def toyEnc (w : Nat) (v : List UInt8) : Routing.Enc := .ok (some (List.replicate (w - v.length) 0 ++ v))
+example : Routing.getRoutingKey toyEnc ⟨[⟨"v", 8⟩, ⟨"id", 4⟩], [1], "ks", "t"⟩ none [[99], [7]] = .key (some [0, 0, 0, 7]) := by decide
+example : Routing.getRoutingKey toyEnc ⟨[⟨"v", 8⟩, ⟨"b", 2⟩, ⟨"a", 4⟩], [2, 1], "ks", "t"⟩ none [[99], [1, 2], [5]]
+    = .key (some [0, 4, 0, 0, 0, 5, 0, 0, 2, 1, 2, 0]) := by decide
+example : Routing.getRoutingKey toyEnc ⟨[⟨"v", 8⟩, ⟨"id", 4⟩], [], "ks", "t"⟩ (some ["id"]) [[99], [7]] = .key (some [0, 0, 0, 7]) := by decide
+example : Routing.getRoutingKey toyEnc ⟨[⟨"v", 8⟩, ⟨"id", 4⟩], [], "ks", "t"⟩ (some ["id", "c"]) [[99], [7]] = .nokey := by decide
+
+/-- COUNTEREXAMPLE to totality (KF-C09-1): a statement `… SET v = ? WHERE id = ?` (key marker 1) executed with ONE bound value:
+    `createRoutingKey` indexes `values[1]` — a run-time panic on the real code (replay: `rkmx 4 1 q 1 1 0 0 2 | v bigint |
+    id int | 1 1 | i int64 99` ↦ crash). The routing theorems exclude it by requiring a value at every key marker. -/
+theorem C09_cex_short_values :
+    Routing.getRoutingKey toyEnc ⟨[⟨"v", 8⟩, ⟨"id", 4⟩], [1], "ks", "t"⟩ none [[99]] = .crash := by decide
+
+/-! ## token order -/
+
+/-- `Less` on tokens hashed from keys orders like Cassandra's `Long.compare` of its own hashes -/
+theorem C09_murmur_order (a b : List UInt8) :
+    ((Murmur.murmur3H1 a).toInt < (Murmur.murmur3H1 b).toInt) ↔
+    ((Murmur.Spec.cassandraH1 a).toInt < (Murmur.Spec.cassandraH1 b).toInt) := by
+  rw [C09_murmur a, C09_murmur b]
+
+/-- RandomPartitioner token strings: decimal strings of naturals order like the naturals -/
+theorem C09_parse_order_nat (m n : Nat) :
+    (∃ x y, Token.parseNat (Token.natDigits m) = some x ∧ Token.parseNat (Token.natDigits n) = some y ∧ (x < y ↔ m < n)) :=
+  ⟨m, n, Token.parseNat_natDigits m, Token.parseNat_natDigits n, Iff.rfl⟩
+
+/-- The token ring order (`newTokenRing`: `sort.Sort` by `token.Less`) is THE ascending arrangement of the tokens:
+    sorted by the order of the integers (Murmur3: signed 64-bit; Random: naturals) resp. unsigned bytewise
+    lexicographic (ordered partitioner), and a permutation of the input. -/
+theorem C09_ring_sorted :
+    (∀ l : List Int, (Routing.ringSortInt l).Pairwise (· ≤ ·) ∧ (Routing.ringSortInt l).Perm l) ∧
+    (∀ l : List Nat, (Routing.ringSortNat l).Pairwise (· ≤ ·) ∧ (Routing.ringSortNat l).Perm l) ∧
+    (∀ l : List (List UInt8), (Routing.ringSortLex l).Pairwise (fun a b => Token.lexLt b a = false) ∧
+      (Routing.ringSortLex l).Perm l) := by
+  refine ⟨fun l => ⟨?_, List.mergeSort_perm l _⟩, fun l => ⟨?_, List.mergeSort_perm l _⟩,
+    fun l => ⟨?_, List.mergeSort_perm l _⟩⟩
+  · have := List.pairwise_mergeSort (le := Routing.intLe) Routing.intLe_trans Routing.intLe_total l
+    exact this.imp (by intro a b h; simpa [Routing.intLe] using h)
+  · have := List.pairwise_mergeSort (le := Routing.natLe) Routing.natLe_trans Routing.natLe_total l
+    exact this.imp (by intro a b h; simpa [Routing.natLe] using h)
+  · have := List.pairwise_mergeSort (le := Routing.lexLe) Routing.lexLe_trans Routing.lexLe_total l
+    exact this.imp (by intro a b h; simpa [Routing.lexLe] using h)
+
+/-- full-range order: −2⁶³ sorts before 2⁶³−1, 2⁶³−1 not before −1 (a comparison by subtraction gets both wrong);
+    an already ascending full-range ring is left as it is -/
+example : Routing.intLe (-9223372036854775808) 9223372036854775807 = true ∧ Routing.intLe 9223372036854775807 (-1) = false := by decide
+example : Routing.ringSortInt [-9223372036854775808, -1, 0, 4611686018427387904, 9223372036854775807]
+    = [-9223372036854775808, -1, 0, 4611686018427387904, 9223372036854775807] :=
+  List.mergeSort_of_pairwise (by decide)
 
 /-- test vectors (labelled as tests): the repo's own vector for "hello", and the empty key -/
 example : (Murmur.murmur3H1 [0x68, 0x65, 0x6c, 0x6c, 0x6f]).toInt = -3758069500696749310 := by decide
